@@ -267,7 +267,7 @@ func TestC12MaxJobs(t *testing.T) {
 		bad := func(key, f string, a ...any) {
 			fail(t, "C12", key, "%s\nhistory:\n  %s", fmt.Sprintf(f, a...), strings.Join(history, "\n  "))
 		}
-		blockedThenRan := 0
+		blockedThenRan, reattached := 0, 0
 		check := func(what string) {
 			// collect finished acquires
 			deadline := time.Now().Add(settle)
@@ -312,6 +312,26 @@ func TestC12MaxJobs(t *testing.T) {
 				time.Sleep(50 * time.Microsecond)
 			}
 		}
+		// jobs a previous mrp had submitted, counted again on re-attach
+		// (RemoteJobManager.reattach): queued on the cluster or running
+		for i, nPrev := 0, rapid.IntRange(0, limit).Draw(t, "reattached"); i < nPrev; i++ {
+			id := len(jobs)
+			p := filepath.Join(dir, "j"+strconv.Itoa(id))
+			if err := os.MkdirAll(p, 0o755); err != nil {
+				t.Fatalf("INFRA: %v", err)
+			}
+			md := core.NewMetadata("ID.P.S"+strconv.Itoa(id), p)
+			md.WriteRaw("jobinfo", "{}")
+			state := rapid.SampledFrom([]string{"queued", "running"}).Draw(t, "stateAtReattach")
+			if state == "running" {
+				md.WriteRaw("log", "")
+			}
+			logf("re-attach #%d (%s)", id, state)
+			sem.Reattach(md)
+			jobs = append(jobs, &job{id: id, md: md, done: make(chan bool, 1), running: true})
+			reattached++
+		}
+		check("re-attach")
 		t.Repeat(map[string]func(*rapid.T){
 			"submit": func(t *rapid.T) {
 				id := len(jobs)
@@ -396,7 +416,11 @@ func TestC12MaxJobs(t *testing.T) {
 				bad("maxjobs-stall", "job #%d never acquired a slot although all others finished", j.id)
 			}
 		}
-		stats.Case("C12", blockedThenRan > limit, stats.Digest("maxjobs", limit, strings.Join(history, "|")), []string{"maxjobs"}, func() any {
+		mcls := []string{"maxjobs"}
+		if reattached > 0 {
+			mcls = append(mcls, "maxjobs-reattached")
+		}
+		stats.Case("C12", blockedThenRan > limit, stats.Digest("maxjobs", limit, strings.Join(history, "|")), mcls, func() any {
 			return map[string]any{"kind": "MaxJobsSemaphore", "limit": limit, "history": history}
 		})
 	})
